@@ -20,14 +20,20 @@ C(p, i) == (p * 8 + i) % 1000003                              \* i-th child of c
 
 \* the inventory of literal segments the generator uses (ids into Base); q and x are reserved for planting
 Lits == <<Ascii.a, Ascii.e, Ascii.i, Ascii.o, Ascii.u, Ascii.p, Ascii.t, Ascii.k, Ascii.b, Ascii.d, Ascii.s, Ascii.z, Ascii.m, Ascii.n, Ascii.l, Ascii.r, Ascii.j, Ascii.w, Ascii.h>>
-FeatPool == <<1, 2, 3, 4, 5, 7, 9, 12, 13, 16, 17, 19, 20, 21, 22>>          \* features used in generated matrices
+FeatPool == <<1, 2, 3, 4, 5, 7, 9, 12, 13, 16, 17, 19, 20, 21, 22, 25, 26>>          \* features used in generated matrices
 SupraNames == <<"long", "overlong", "stress", "sec.stress">>
 
-GenFeatMod(seed, p) == <<"f", FeatPool[Pick(seed, p, Len(FeatPool))], Chance(seed, C(p, 1), 1, 2)>>
-GenSegMods(seed, p) == [i \in 1..Pick(seed, p, 2) |-> GenFeatMod(seed, C(p, i))]
+NodePool == <<"lab", "cor", "dor", "phr", "place">>
+GenFeatMod(seed, p) == IF Chance(seed, C(p, 2), 1, 7)
+                       THEN LET nd == NodePool[Pick(seed, p, Len(NodePool))] IN <<"n", nd, IF nd = "place" THEN FALSE ELSE Chance(seed, C(p, 1), 1, 3)>>    \* [+place] is not a valid output
+                       ELSE <<"f", FeatPool[Pick(seed, p, Len(FeatPool))], Chance(seed, C(p, 1), 1, 2)>>
+NodePairs == << <<"dor", "phr">>, <<"cor", "phr">>, <<"lab", "dor">>, <<"lab", "phr">>, <<"cor", "dor">>, <<"lab", "cor">> >>
+GenSegMods(seed, p) == IF Chance(seed, C(p, 5), 1, 14)
+                       THEN LET np == NodePairs[Pick(seed, C(p, 6), Len(NodePairs))] IN << <<"n", np[1], FALSE>>, <<"n", np[2], FALSE>> >>     \* strip two place sub-nodes
+                       ELSE [i \in 1..Pick(seed, p, 2) |-> GenFeatMod(seed, C(p, i))]
 GenLenMod(seed, p) == <<"s", SupraNames[Pick(seed, p, 2)], Chance(seed, C(p, 1), 1, 2)>>
 GenStressMod(seed, p) == <<"s", SupraNames[2 + Pick(seed, p, 2)], Chance(seed, C(p, 1), 1, 2)>>
-GenToneMod(seed, p) == <<"t", <<0, 5, 51, 214>>[Pick(seed, p, 4)]>>
+GenToneMod(seed, p) == <<"t", <<0, 5, 51, 214, 50, 105>>[Pick(seed, p, 6)]>>
 
 \* a segment-matching element: IPA (optionally with modifiers), matrix, group (optionally with modifiers)
 GenSeg(seed, p) ==
@@ -85,7 +91,7 @@ GenOutSeg(seed, p) ==
   LET c == Pick(seed, p, 6) IN
   CASE c <= 3 -> Ipa(Lits[Pick(seed, C(p, 1), Len(Lits))])
     [] c <= 5 -> Mx(GenSegMods(seed, C(p, 1)))
-    [] OTHER  -> Mx(<<IF Chance(seed, C(p, 1), 1, 2) THEN GenLenMod(seed, C(p, 2)) ELSE GenStressMod(seed, C(p, 2))>>)
+    [] OTHER  -> Mx(<<LET c2 == Pick(seed, C(p, 1), 3) IN IF c2 = 1 THEN GenLenMod(seed, C(p, 2)) ELSE IF c2 = 2 THEN GenStressMod(seed, C(p, 2)) ELSE GenToneMod(seed, C(p, 2))>>)
 
 (* rule classes *)
 \* substitution: k input segment terms, k (or k+-1) outputs
